@@ -784,6 +784,41 @@ Proof.
     cbn [fst] in Hr. apply Hsc. exact Hr.
 Qed.
 
+(** the last hop: [push_arg_values] appends the (delimited) values, in order, to the last value
+    group of the entry of [a] *)
+Lemma fm_get_update_same {V} k (f : V -> V) : forall l, fm_get k (fm_update k f l) = opt_map f (fm_get k l).
+Proof.
+  induction l as [|[k' v] t IH]; [reflexivity|]. cbn [fm_update fm_get].
+  destruct (beq k' k) eqn:E; cbn [fm_get]; rewrite E; [reflexivity|exact IH].
+Qed.
+
+Lemma mt_args_set m x : mt_args (m <| mt_args := x |>) = x.
+Proof. reflexivity. Qed.
+
+Lemma push_last_snoc {A} (x : A) gs g : push_last x (gs ++ [g]) = Some (gs ++ [g ++ [x]]).
+Proof. unfold push_last. rewrite rev_app_distr. cbn. rewrite rev_involutive. reflexivity. Qed.
+
+Theorem push_arg_values_entry : forall a raw st st' m gs g,
+  push_arg_values c a raw st = ROk st' ->
+  get_entry (a_id a) st = Some m -> m_raw m = gs ++ [g] ->
+  exists m', get_entry (a_id a) st' = Some m' /\ m_raw m' = gs ++ [g ++ raw].
+Proof.
+  intros a. induction raw as [|v t IH]; intros st st' m gs g; cbn [push_arg_values].
+  - intros E Hm Hr. injection E as <-. exists m. rewrite app_nil_r. auto.
+  - unfold expect. destruct (a_vp a) as [vp|]; cbn [rbind]; [|discriminate].
+    destruct (vp_parse vp v); [discriminate|].
+    unfold add_val_to, get_entry. cbn [mt ps_bump]. intros E Hm Hr. revert E.
+    change (mt (ps_bump st)) with (mt st). rewrite Hm. unfold append_val. rewrite Hr, push_last_snoc.
+    cbn [rbind]. unfold add_index_to. rewrite !mt_args_set. rewrite fm_get_update_same, Hm. cbn [opt_map rbind].
+    intros E.
+    destruct (IH _ _ (push_index (cur_idx (ps_bump st)) (m <| m_raw := gs ++ [g ++ [v]] |>)) gs (g ++ [v]) E)
+      as (m' & E1 & E2).
+    + unfold get_entry. change (mt (ps_bump st <| mt := ?x |>)) with x.
+      rewrite !mt_args_set, !fm_get_update_same, Hm. cbn [opt_map]. reflexivity.
+    + reflexivity.
+    + exists m'. split; [exact E1|]. rewrite E2, <- app_assoc. reflexivity.
+Qed.
+
 (** T3: closing a pending occurrence of [a] leaves every entry outside [touched a] as it was *)
 Theorem resolve_pending_frame : forall st st' p a x,
   mt_pending (mt st) = Some p -> find_arg c (p_id p) = Some a -> touched a x = false ->
